@@ -91,6 +91,31 @@ class Engine:
         self.in_progress = set()
         self.stats = {"functions": set(), "blocks": 0, "states": 0, "summaries": 0}
         self.trace = {}          # (fkey, block, state) -> parent, for witness paths of the top activation
+        self._bools = {}
+
+    def _tracked_bools(self, f):
+        """bool locals worth tracking: those that (somewhere) receive the result of a call.
+        Flags that only ever hold literals / comparisons (at_sign_seen, ...) multiply the state
+        space without ever correlating with a callee's return value."""
+        k = f["key"]
+        tb = self._bools.get(k)
+        if tb is None:
+            tb = set()
+            for b in f["blocks"]:
+                for s in b["stmts"]:
+                    if s["k"] == "decl":
+                        for v in s["vars"]:
+                            if v["ty"].replace("const ", "") == "bool" and v.get("init") is not None and \
+                                    any(n.get("k") == "call" for n in X.walk(v["init"])):
+                                tb.add(v["id"])
+                    for n in X.stmt_nodes(s):
+                        if n.get("k") == "assign":
+                            l0 = X.strip(n["lhs"])
+                            if isinstance(l0, dict) and l0.get("k") == "ref" and l0.get("ty", "").replace("const ", "") == "bool" \
+                                    and any(m.get("k") == "call" for m in X.walk(n["rhs"])):
+                                tb.add(l0.get("id"))
+            self._bools[k] = tb
+        return tb
 
     # ------------------------------------------------------------------ entry
     def run(self, f, binding, core_in, top=True):
@@ -215,7 +240,7 @@ class Engine:
                         outs = self._eval(act, cur, init)
                     for (st2, val) in outs:
                         benv = st2[1]
-                        if v["ty"].replace("const ", "") == "bool":
+                        if v["ty"].replace("const ", "") == "bool" and v["id"] in self._tracked_bools(act.f):
                             benv = _bind(benv, v["id"], val)
                         for core in _as_list(self.mon.on_decl(st2[0], v, init, (self, act))):
                             nxt.append((core, benv))
@@ -283,7 +308,8 @@ class Engine:
                     l0 = X.strip(lhs)
                     if l0.get("k") == "ref" and l0.get("kind") in ("local", "param") and \
                             l0.get("ty", "").replace("const ", "") == "bool":
-                        benv = _bind(benv, l0.get("id"), v)
+                        if l0.get("id") in self._tracked_bools(act.f):
+                            benv = _bind(benv, l0.get("id"), v)
                     elif l0.get("k") == "ref" and l0.get("kind") in ("local", "param"):
                         benv = _bind(benv, "e%s" % l0.get("id"), None)
                     if p is not None:
